@@ -176,7 +176,7 @@ pub const TY_LIST: u8 = 7;
 pub fn tlf_raw(ty: u8, v: u128, nibbles: usize) -> Vec<u8> {
     let mut out = Vec::with_capacity(nibbles);
     for k in (0..nibbles).rev() {
-        let nib = ((v >> (4 * k)) & 0xf) as u8;
+        let nib = if 4 * k >= 128 { 0 } else { ((v >> (4 * k)) & 0xf) as u8 };
         let more = if k > 0 { 0x80 } else { 0 };
         if k + 1 == nibbles {
             out.push(more | (ty << 4) | nib);
@@ -415,10 +415,45 @@ pub fn encode_file(f: &RFile, rng: &mut Rng, prof: &Profile) -> (Vec<u8>, Vec<Ms
 }
 
 /// generate an abstract file and its wire form; self-checked against the reference reader
+/// Tweak the last two bytes of the transaction id until the message CRC is below 0x100, so that
+/// the one-byte CRC field `62 xx` is a legal encoding (otherwise that path is reached for one
+/// message in 256 only).
+fn force_short_crc(m: &mut RMsg, ms: &mut MsgScn) -> bool {
+    let sites = walk_sites(&ms.body);
+    let Some(tid) = sites.iter().find(|s| s.depth == 1) else { return false };
+    if tid.ty != TY_OCT || tid.len < 2 || m.tid.len() != tid.len {
+        return false;
+    }
+    let at = tid.end - 2;
+    for v in 0..=0xffffu32 {
+        ms.body.0[at] = (v >> 8) as u8;
+        ms.body.0[at + 1] = v as u8;
+        if crate::refenc::crc16_x25(&ms.body).swap_bytes() < 0x100 {
+            let n = m.tid.len();
+            m.tid.0[n - 2] = (v >> 8) as u8;
+            m.tid.0[n - 1] = v as u8;
+            ms.seal = Seal::GoodShort;
+            return true;
+        }
+    }
+    false
+}
+
 pub fn gen_valid(rng: &mut Rng, max_entries: usize) -> (RFile, Vec<u8>, Vec<MsgScn>) {
-    let f = gen_rfile(rng, max_entries);
+    let mut f = gen_rfile(rng, max_entries);
     let prof = Profile::draw(rng);
-    let (bytes, msgs) = encode_file(&f, rng, &prof);
+    let (mut bytes, mut msgs) = encode_file(&f, rng, &prof);
+    if rng.chance(1, 6) {
+        for (m, ms) in f.msgs.iter_mut().zip(msgs.iter_mut()) {
+            if rng.chance(1, 2) {
+                force_short_crc(m, ms);
+            }
+        }
+        bytes.clear();
+        for ms in &msgs {
+            bytes.extend_from_slice(&crate::scn::seal_msg(ms));
+        }
+    }
     match ref_read(&bytes) {
         Ok(t) if t == f => {}
         other => panic!(
@@ -589,7 +624,12 @@ pub fn corpus() -> &'static Vec<Vec<Vec<u8>>> {
 // Byzantine mutations of a message body (applied before sealing => CRC re-sealed)
 // ---------------------------------------------------------------------------
 
-pub const INFLATE_VALUES: [u128; 28] = [
+pub const INFLATE_VALUES: [u128; 33] = [
+    (1u128 << 64) | 6,
+    (1u128 << 68) | 3,
+    (0xau128 << 64) | 0x10,
+    (1u128 << 96) | 7,
+    (0xffu128 << 72) | 2,
     0x10,
     0x103,
     0x104,
@@ -636,6 +676,7 @@ pub const STRUCT_OPS: &[&str] = &[
     "rewidth",
     "substitute-field",
     "long-field",
+    "wide-tlf",
 ];
 
 /// apply one structural mutation; returns its name (None if nothing could be done)
@@ -668,10 +709,12 @@ pub fn mutate_body(rng: &mut Rng, body: &mut Vec<u8>, op: &str) -> Option<String
         "wrap-length" => {
             // a length >= 2^32 that wraps (mod 2^32) to exactly the original value
             let s = pick_site(rng, &|s| s.off > 0)?;
-            let nib = rng.range(9, 12);
+            // the excess sits above bit 32 (9-12 nibbles) or above bit 64 (17-24 nibbles): wider
+            // accumulators wrap at other places
+            let (nib, shift) = if rng.chance(2, 3) { (rng.range(9, 12), 32) } else { (rng.range(17, 24), 64) };
             let orig: u128 = if s.ty == TY_LIST { s.len as u128 } else { (s.len + nib) as u128 };
-            let hi: u128 = (rng.range(1, 15) as u128) << 32;
-            let t = tlf_raw(s.ty, hi | (orig & 0xffff_ffff), nib);
+            let hi: u128 = (rng.range(1, 15) as u128) << shift;
+            let t = tlf_raw(s.ty, hi | (orig & 0xffff_ffff), nib.max(shift / 4 + 1));
             body.splice(s.off..s.off + s.tlf_size, t);
             Some(format!("wrap-length(ty={},off={},nibbles={})", s.ty, s.off, nib))
         }
@@ -787,6 +830,15 @@ pub fn mutate_body(rng: &mut Rng, body: &mut Vec<u8>, op: &str) -> Option<String
             body.splice(s.off..s.end, f);
             Some(format!("long-field(ty={},off={},len={})", s.ty, s.off, l))
         }
+        "wide-tlf" => {
+            // the same declared value, written with hundreds of leading zero nibbles: legal for the
+            // grammar, but every counter of TLF bytes has to survive it
+            let s = pick_site(rng, &|_| true)?;
+            let extra = *rng.pick(&[250usize, 253, 254, 255, 256, 257, 300, 1000, 65_534, 65_535, 65_536, 65_540]);
+            let t = tlf(s.ty, s.len, extra);
+            body.splice(s.off..s.off + s.tlf_size, t);
+            Some(format!("wide-tlf(ty={},off={},extra-nibbles={})", s.ty, s.off, extra))
+        }
         "insert-junk" => {
             let at = rng.below(body.len() + 1);
             let n = rng.range(1, 4);
@@ -801,7 +853,7 @@ pub fn mutate_body(rng: &mut Rng, body: &mut Vec<u8>, op: &str) -> Option<String
 #[derive(Clone, Debug)]
 pub struct Emphasis {
     /// weights over STRUCT_OPS
-    pub ops: [usize; 15],
+    pub ops: [usize; 16],
     /// per cent of runs that stay valid (no mutation at all)
     pub valid: usize,
     /// per cent of mutated runs that also get un-resealed byte faults
@@ -812,7 +864,7 @@ pub struct Emphasis {
 impl Emphasis {
     pub fn balanced() -> Emphasis {
         Emphasis {
-            ops: [6, 4, 4, 4, 3, 3, 3, 6, 4, 4, 3, 3, 4, 5, 2],
+            ops: [6, 4, 4, 4, 3, 3, 3, 6, 4, 4, 3, 3, 4, 5, 2, 1],
             valid: 15,
             post: 35,
             max_entries: 40,
@@ -820,7 +872,7 @@ impl Emphasis {
     }
     pub fn inflation() -> Emphasis {
         Emphasis {
-            ops: [30, 1, 1, 1, 1, 1, 1, 2, 1, 1, 1, 10, 2, 2, 8],
+            ops: [30, 1, 1, 1, 1, 1, 1, 2, 1, 1, 1, 10, 2, 2, 8, 6],
             valid: 5,
             post: 10,
             max_entries: 20,
@@ -828,7 +880,7 @@ impl Emphasis {
     }
     pub fn mid_message() -> Emphasis {
         Emphasis {
-            ops: [6, 4, 3, 4, 3, 3, 3, 8, 4, 6, 3, 3, 3, 4, 1],
+            ops: [6, 4, 3, 4, 3, 3, 3, 8, 4, 6, 3, 3, 3, 4, 1, 1],
             valid: 10,
             post: 50,
             max_entries: 12,
